@@ -15,6 +15,8 @@ abstract schema:
 """
 from __future__ import annotations
 
+import re
+
 import random
 
 BUILTIN = ["Int", "Float", "String", "Boolean", "ID"]
@@ -100,6 +102,9 @@ class Gen:
             return {"t": "i", "v": rnd.choice([0, 1, -7, 2147483647])}
         if n == "Float":
             return {"t": "f", "v": rnd.choice(["1.5", "-0.25", "2.0", "100000.0"])}
+        if n == "ID" and rnd.random() < 0.4:
+            # IDs that look like numbers, or almost do: an ID value is a string whatever it looks like
+            return {"t": "s", "v": [ord(c) for c in rnd.choice(["12", "1\n", "-3\n", "007", " 5", "0x1f", "1e3", "\u0663", "-0", "12\r", "9" * 25])]}
         if n == "String" or n == "ID":
             return {"t": "s", "v": [ord(c) for c in (rnd.choice(TEXTS[:14]) if self.adv else "txt")]}
         if n == "Boolean":
@@ -257,7 +262,18 @@ class Gen:
             roots["mutation"] = objects[1]["name"]
         if len(objects) > 2 and rnd.random() < 0.3:
             roots["subscription"] = objects[2]["name"]
-        if rnd.random() < 0.5:
+        r_names = rnd.random()
+        if r_names < 0.15:
+            # the conventional names, but on the wrong operations (the schema block is then indispensable)
+            present = [k for k in ("query", "mutation", "subscription") if roots[k]]
+            names = ["Query", "Mutation", "Subscription"]
+            perm = names[:]
+            while perm == names:
+                rnd.shuffle(perm)
+            ren = {roots[k]: perm[names.index(n)] for k, n in zip(("query", "mutation", "subscription"), names) if roots[k]}
+            self.rename(ren)
+            roots = {k: (ren.get(v, v) if v else None) for k, v in roots.items()}
+        elif r_names < 0.6:
             # conventional root names
             ren = {query["name"]: "Query"}
             if roots["mutation"] and rnd.random() < 0.7:
@@ -469,11 +485,18 @@ def proj_type(t):
     return ["N", t.name]
 
 
-def proj_ast_value(node):
+def proj_ast_value(node, t=None):
+    """default value literal -> wire value, read through the input type t where that matters: at an ID position an
+    Int literal is the spelling of the ID with those digits"""
     from graphql.language import ast
+    from graphql.type import is_non_null_type, is_list_type, is_input_object_type, GraphQLID
+    while t is not None and is_non_null_type(t):
+        t = t.of_type
     if isinstance(node, ast.NullValueNode):
         return {"t": "null"}
     if isinstance(node, ast.IntValueNode):
+        if t is GraphQLID:
+            return {"t": "s", "v": [ord(c) for c in node.value]}
         return {"t": "i", "v": int(node.value)}
     if isinstance(node, ast.FloatValueNode):
         return {"t": "f", "v": repr(float(node.value))}
@@ -484,9 +507,11 @@ def proj_ast_value(node):
     if isinstance(node, ast.EnumValueNode):
         return {"t": "e", "v": node.value}
     if isinstance(node, ast.ListValueNode):
-        return {"t": "l", "v": [proj_ast_value(x) for x in node.values]}
+        it = t.of_type if t is not None and is_list_type(t) else None
+        return {"t": "l", "v": [proj_ast_value(x, it) for x in node.values]}
     if isinstance(node, ast.ObjectValueNode):
-        return {"t": "o", "kv": [[f.name.value, proj_ast_value(f.value)] for f in node.fields]}
+        fts = {n: f.type for n, f in t.fields.items()} if t is not None and is_input_object_type(t) else {}
+        return {"t": "o", "kv": [[f.name.value, proj_ast_value(f.value, fts.get(f.name.value))] for f in node.fields]}
     return {"t": "other", "v": type(node).__name__}
 
 
@@ -494,7 +519,7 @@ def proj_iv(name, a):
     from graphql.utilities.get_default_value_ast import get_default_value_ast
     node = get_default_value_ast(a)
     return {"name": name, "type": proj_type(a.type), "description": a.description, "deprecation": a.deprecation_reason,
-            "hasDefault": node is not None, "default": proj_ast_value(node) if node is not None else {"t": "null"}}
+            "hasDefault": node is not None, "default": proj_ast_value(node, a.type) if node is not None else {"t": "null"}}
 
 
 def project(schema):
@@ -538,6 +563,38 @@ def norm_value(v):
     if v["t"] == "o":
         return {"t": "o", "kv": [[k, norm_value(x)] for k, x in v["kv"]]}
     return v
+
+
+INT_SPELLING = re.compile(r"-?(?:0|[1-9][0-9]*)\Z")
+
+
+def untyped_value(v):
+    """Normal form for comparing default values that were read WITHOUT their type (introspection gives the printed
+    literal only): a string that spells an integer and that integer are the same thing (an ID prints as an Int
+    literal); integers beyond 32 bits are kept as their digits."""
+    if v["t"] == "s":
+        text = "".join(chr(c) for c in v["v"])
+        if INT_SPELLING.match(text) and text != "-0":
+            return untyped_value({"t": "i", "v": int(text)})
+        return v
+    if v["t"] == "i":
+        return v if -2 ** 31 <= v["v"] < 2 ** 31 else {"t": "s", "v": [ord(c) for c in str(v["v"])]}
+    if v["t"] == "l":
+        return {"t": "l", "v": [untyped_value(x) for x in v["v"]]}
+    if v["t"] == "o":
+        return {"t": "o", "kv": [[k, untyped_value(x)] for k, x in v["kv"]]}
+    return v
+
+
+def untyped_defaults(S):
+    """S with every default value in the untyped normal form"""
+    def iv(a):
+        return {**a, "default": untyped_value(a["default"])}
+    out = dict(S)
+    out["types"] = [{**t, "fields": [{**f, "args": [iv(a) for a in f["args"]]} for f in t["fields"]], "inputFields": [iv(f) for f in t["inputFields"]]}
+                    for t in S["types"]]
+    out["directives"] = [{**d, "args": [iv(a) for a in d["args"]]} for d in S["directives"]]
+    return out
 
 
 def normalise(S, ordered=True):
